@@ -111,7 +111,20 @@ func (lc *lenCtx) elemStores(base ssa.Value) (stores []elemStore, what string, c
 	}
 	switch a := ld.X.(type) {
 	case *ssa.IndexAddr:
-		mk, isMk := core.Strip(a.X).(*ssa.MakeSlice)
+		// the container handed to a closure or a private helper: the list its call site passes
+		x := core.Strip(a.X)
+		for i := 0; i < 4; i++ {
+			p, isP := x.(*ssa.Parameter)
+			if !isP || !bindableParam(p) {
+				break
+			}
+			arg := closureArg(p)
+			if arg == nil {
+				break
+			}
+			x = core.Strip(arg)
+		}
+		mk, isMk := x.(*ssa.MakeSlice)
 		if !isMk {
 			return nil, "", nil
 		}
@@ -176,6 +189,25 @@ func (lc *lenCtx) elemLenInvariant(base ssa.Value, l *core.Loop, at ssa.Instruct
 		return false, ""
 	}
 	hiT := core.TermOf(l.Hi)
+	// the reading loop sits in a private helper of the function that made the container: its bound and
+	// its position are read in that function (argument of the call, the call instruction)
+	if mk, ok := container.(*ssa.MakeSlice); ok && core.Outermost(mk.Parent()) != core.Outermost(at.Parent()) {
+		hiT = core.FrameTerm(core.Outermost(mk.Parent()), l.Hi)
+		var site ssa.Instruction
+		n := 0
+		for _, g := range core.WithClosures(core.Outermost(mk.Parent())) {
+			for _, cs := range core.Calls(g) {
+				if core.Callee(cs) == core.Outermost(at.Parent()) {
+					site = cs
+					n++
+				}
+			}
+		}
+		if n != 1 {
+			return false, what + ": read in a helper that is not called exactly once by the function that fills the list"
+		}
+		at = site
+	}
 	// `for c := range Vc` with Vc = make([]T, n): the bound is n
 	if hiT.Op == "call:len" {
 		if mk, isMk := valueOfTerm(hiT.Args[0]).(*ssa.MakeSlice); isMk {
